@@ -157,6 +157,11 @@ def class_specs(draw, name, earlier, allow_hooks=True):
             c['sav'] = 'raise'
         elif h == 5 and params:
             c['sav'] = {'rebuild': draw(st.sampled_from([q['n'] for q in params]))}
+        elif h == 8 and any(q['t'] in ('any', ['dict', 'any'], ['list', 'any']) for q in params):
+            q = draw(st.sampled_from([q for q in params
+                                      if q['t'] in ('any', ['dict', 'any'], ['list', 'any'])]))
+            c['sav'] = {'struct': 'seq' if q['t'] == ['list', 'any'] else draw(
+                st.sampled_from(['index', 'index', 'seq'])), 'attr': q['n']}
         elif h in (6, 7):
             # a class whose savorize fills in defaults carries a float or a bool default
             # among them (1.0 / True and 0.0 / False are the values that may be confused)
